@@ -125,3 +125,66 @@ def random_source(rng, c, n):
 
 def make_env(jinja2, c, **extra):
     return jinja2.Environment(**c, **extra)
+
+
+# ---------------------------------------------------------------------------------------------
+# structured sources: skeletons of text / tags / raw blocks / comments / line statements
+# ---------------------------------------------------------------------------------------------
+
+WS_RUNS = ["", " ", "\t", "\n", " \n ", "\n\n", "\r\n", "  ", "\n  ", " \n", "\x0b", "\n\t\n"]
+WORDS = ["a", "foo", "x1", "T", "é", "<p>", "1", ".", "end", "raw"]
+INTERIORS = ["if x", "endif", "for i in y", "endfor", "set a = 1", "x", "x|upper", "1 + 2", "'s'", "x[0]", "(a, b)", "{'k': 1}",
+             "a -1", "x -", "- x"]
+
+
+def skeleton(rng, c, nseg):
+    """returns (source, list of segment descriptions)"""
+    bs, be = c["block_start_string"], c["block_end_string"]
+    vs, ve = c["variable_start_string"], c["variable_end_string"]
+    cs, ce = c["comment_start_string"], c["comment_end_string"]
+    out, desc = [], []
+
+    def ws():
+        return rng.choice(WS_RUNS)
+
+    def sign():
+        return rng.choice(["", "", "", "-", "+"])
+
+    for _ in range(nseg):
+        k = rng.choice(["text", "text", "block", "block", "var", "comment", "raw", "linestmt", "linecomment"])
+        if k == "text":
+            t = ws() + rng.choice(WORDS) + ws() + rng.choice(["", rng.choice(WORDS)]) + ws()
+            out.append(t)
+        elif k == "block":
+            out.append(f"{bs}{sign()}{rng.choice(['', ' ', '  '])}{rng.choice(INTERIORS)}{rng.choice(['', ' '])}{sign()}{be}")
+        elif k == "var":
+            s2 = rng.choice(["", "", "-"])
+            out.append(f"{vs}{sign()} {rng.choice(INTERIORS[5:])} {s2}{ve}")
+        elif k == "comment":
+            out.append(f"{cs}{sign()}{ws()}c{rng.choice(['', ' ' + be, ' ' + vs])}{ws()}{sign()}{ce}")
+        elif k == "raw":
+            body = ws() + rng.choice(["", "r", vs + " x " + ve, bs + " if " + be, cs]) + ws()
+            out.append(f"{bs}{sign()}{rng.choice(['', ' '])}raw{rng.choice(['', ' '])}{rng.choice(['', '-'])}{be}{body}"
+                       f"{bs}{sign()} endraw {sign()}{be}")
+        elif k == "linestmt" and c["line_statement_prefix"]:
+            out.append(f"\n{rng.choice(['', ' ', chr(9)])}{c['line_statement_prefix']}{rng.choice(['', ' '])}{rng.choice(INTERIORS)}"
+                       f"{rng.choice(['', ' ', ':'])}{rng.choice([chr(10), chr(10) * 2, ''])}")
+        elif k == "linecomment" and c["line_comment_prefix"]:
+            out.append(f"{rng.choice(['', chr(10), ' ', 'w '])}{c['line_comment_prefix']} note{rng.choice([chr(10), ''])}")
+        else:
+            out.append(ws())
+        desc.append(k)
+    return "".join(out), desc
+
+
+def env_variants(jinja2, c):
+    """the same configuration reached three ways (fresh environment, overlay of an already used
+    environment with different options, spontaneous environment of Template(...))"""
+    fresh = jinja2.Environment(**c)
+    base = jinja2.Environment(trim_blocks=not c["trim_blocks"], lstrip_blocks=not c["lstrip_blocks"],
+                              keep_trailing_newline=not c["keep_trailing_newline"])
+    list(base.lex("{% if x %} a {% endif %}\n"))
+    base.from_string("{{ 1 }}\n")
+    ov = base.overlay(**c)
+    t = jinja2.Template("", **c)
+    return [("fresh", fresh), ("overlay-of-used", ov), ("template-ctor", t.environment)]
